@@ -1,4 +1,5 @@
 import HeimdallModel.Lemmas.Jwt
+import HeimdallModel.Lemmas.JwtRegistered
 /-!
 # C05 — JWT authentication accepts exactly the correctly signed, asserted tokens
 
@@ -305,6 +306,141 @@ theorem c05_expired_forever (cfg : Config) (rule : Option Expectation) (w : Worl
 example : lookup "exp" claims₀ = some (.num 1700000300 0) ∧
     truncNum 1700000300 0 ≤ (now₀ + 305000) / 1000 - (Spec.inForce cfg₀ rule₀ "").leewaySec :=
   ⟨by rfl, by decide⟩
+
+/-! ## Only the registered claims decide -/
+
+/-- the witness claims without the `aud` member -/
+def claimsNoAud : List (String × Val) := claims₀.filter fun kv => kv.1 ≠ "aud"
+
+/-- **The verdict reads the payload under the registered names only** (`iss`, `sub`, `aud`, `scp`, `scope`, `exp`,
+`nbf`, `iat`, `jti`).  Take two payloads `kvs`, `kvs'` of any shape that say the same under these names and differ
+arbitrarily elsewhere — one names the expected audience in `azp`, `client_id`, `audience`, `Aud` or `ext.aud`, the
+trusted issuer in `issuer`, the required scopes in `scopes` / `permissions`, a later instant in `expires_at`, the
+other does not — and put them into the same token (same header, same signature oracle), same configuration at both
+levels, same endpoints, same instant:
+1. every refusal that is not about the subject (`issuer`, `audience`, `expired`, `notYetValid`, `issuedInFuture`,
+   `scopes`, `claims`, `signature`, …) is pronounced for both or for neither;
+2. if the one is accepted, the other gets exactly what `CreateSubject` makes of its own payload (a subject, or a
+   refusal for want of an id / attributes object);
+3. if the two payloads yield the same subject, the two requests end alike. -/
+theorem c05_only_registered_claims_decide (cfg : Config) (rule : Option Expectation) (w : World) (t : Token)
+    (nowMs : Int) (kvs kvs' : List (String × Val)) (h : ∀ n ∈ Spec.registered, lookup n kvs = lookup n kvs') :
+    (∀ why, why ≠ .subjectId → why ≠ .attributes →
+      (authenticate cfg rule w (.token (t.withPayload kvs)) nowMs = .rejected why ↔
+        authenticate cfg rule w (.token (t.withPayload kvs')) nowMs = .rejected why)) ∧
+    ((∃ id attrs, authenticate cfg rule w (.token (t.withPayload kvs)) nowMs = .accepted id attrs) →
+      authenticate cfg rule w (.token (t.withPayload kvs')) nowMs = subject cfg.subject (.obj kvs')) ∧
+    (subject cfg.subject (.obj kvs) = subject cfg.subject (.obj kvs') →
+      authenticate cfg rule w (.token (t.withPayload kvs)) nowMs =
+        authenticate cfg rule w (.token (t.withPayload kvs')) nowMs) := by
+  have hg : gate cfg rule w t kvs nowMs = gate cfg rule w t kvs' nowMs := gate_congr cfg rule w t nowMs h
+  rw [authenticate_withPayload, authenticate_withPayload, hg]
+  cases hc : gate cfg rule w t kvs' nowMs with
+  | error o =>
+    refine ⟨fun _ _ _ => Iff.rfl, ?_, fun _ => rfl⟩
+    rintro ⟨id, attrs, ha⟩
+    simp only [] at ha
+    rcases gate_error _ _ _ _ _ _ _ hc with ho | ⟨why, ho⟩ <;> rw [ho] at ha <;> cases ha
+  | ok u =>
+    cases u
+    refine ⟨?_, fun _ => rfl, fun hs => hs⟩
+    intro why h1 h2
+    constructor <;> intro hs <;> rcases subject_rejected_why _ _ _ hs with e | e <;> contradiction
+
+/-- the hypothesis at a witness: `azp` put in front of the witness claims without `aud` -/
+example : ∀ n ∈ Spec.registered, lookup n (("azp", .str "api") :: claimsNoAud) = lookup n claimsNoAud :=
+  agree_cons _ _ (by decide)
+
+/-- **A member under an unregistered name is no assertion.**  For every name outside `Spec.registered` and every
+value: putting such a member in front of a payload, or removing all members of that name, neither creates nor destroys
+an entitlement (specification), and every refusal of the authenticator that is not about the subject stays what it
+was. -/
+theorem c05_unregistered_member_is_no_assertion (cfg : Config) (rule : Option Expectation) (w : World) (t : Token)
+    (nowMs : Int) (kvs : List (String × Val)) (n : String) (v : Val) (hn : n ∉ Spec.registered) :
+    (∀ a vj ks k, Entitled a vj ks t ((n, v) :: kvs) nowMs k ↔ Entitled a vj ks t kvs nowMs k) ∧
+    (∀ a vj ks k, Entitled a vj ks t (kvs.filter fun kv => kv.1 ≠ n) nowMs k ↔ Entitled a vj ks t kvs nowMs k) ∧
+    (∀ why, why ≠ .subjectId → why ≠ .attributes →
+      (authenticate cfg rule w (.token (t.withPayload ((n, v) :: kvs))) nowMs = .rejected why ↔
+        authenticate cfg rule w (.token (t.withPayload kvs)) nowMs = .rejected why)) :=
+  ⟨fun a vj ks k => ⟨entitled_congr a vj ks t nowMs k (agree_cons v kvs hn),
+      entitled_congr a vj ks t nowMs k (agree_cons v kvs hn).symm⟩,
+   fun a vj ks k => ⟨entitled_congr a vj ks t nowMs k (agree_filter kvs hn),
+      entitled_congr a vj ks t nowMs k (agree_filter kvs hn).symm⟩,
+   (c05_only_registered_claims_decide cfg rule w t nowMs _ _ (agree_cons v kvs hn)).1⟩
+
+example : "azp" ∉ Spec.registered ∧ "client_id" ∉ Spec.registered ∧ "audience" ∉ Spec.registered ∧
+    "Aud" ∉ Spec.registered ∧ "aud " ∉ Spec.registered ∧ "scopes" ∉ Spec.registered ∧
+    "expires_at" ∉ Spec.registered ∧ "issuer" ∉ Spec.registered := by decide
+
+/-- **The audience is read from `aud`, from nowhere else.**  With audiences in force (at rule level, else at
+mechanism level), a token whose payload has no `aud` member, or whose `aud` member — whatever its type — denotes none
+of the expected audiences (`[]`, `""`, `null`, other parties), is rejected; no other member (`azp`, the party the
+token was issued *to*, `client_id`, `cid`, `appid`, `audience`, `resource`, `Aud`, a nested `aud`) can stand in for it:
+the statement does not restrict the rest of the payload. -/
+theorem c05_audience_only_from_aud (cfg : Config) (rule : Option Expectation) (w : World) (tok : Token)
+    (nowMs : Int) (kvs : List (String × Val)) (md : Metadata)
+    (hpl : tok.payload = some (.obj kvs)) (hmd : Spec.metadata cfg w = some md)
+    (hcfg : (Spec.inForce cfg rule md.issuer).audiences ≠ [])
+    (haud : ∀ v, lookup "aud" kvs = some v →
+      ∀ x ∈ (Spec.inForce cfg rule md.issuer).audiences, x ∉ Spec.strings (some v)) :
+    ∀ id attrs, authenticate cfg rule w (.token tok) nowMs ≠ .accepted id attrs := by
+  refine c05_unasserted_rejected cfg rule w tok nowMs kvs md hpl hmd (Or.inr (Or.inr (Or.inl ⟨hcfg, ?_⟩)))
+  intro x hx
+  simp only [Spec.audiences, member_eq_lookup]
+  cases hl : lookup "aud" kvs with
+  | none => simp [Spec.strings]
+  | some v => exact haud v hl x hx
+
+/-- the hypotheses at a witness: audiences `api`, `web` in force (rule level), no `aud` member, `azp` = `api` -/
+example : (tokWith (("azp", .str "api") :: claimsNoAud)).payload = some (.obj (("azp", .str "api") :: claimsNoAud)) ∧
+    Spec.metadata cfg₀ world₀ = some { issuer := "", hasJwks := true } ∧
+    (Spec.inForce cfg₀ rule₀ "").audiences ≠ [] ∧
+    ∀ v, lookup "aud" (("azp", .str "api") :: claimsNoAud) = some v →
+      ∀ x ∈ (Spec.inForce cfg₀ rule₀ "").audiences, x ∉ Spec.strings (some v) :=
+  ⟨rfl, rfl, by decide, fun v hv => by
+    have : lookup "aud" (("azp", .str "api") :: claimsNoAud) = none := by rfl
+    rw [this] at hv; cases hv⟩
+
+/-- no `aud` but `azp` / `client_id` / `audience` / `Aud` / `aud␠` / a nested `aud` naming the expected audience;
+`aud: []`, `aud: ""`, `aud` naming another party next to such a member: refused for the audience.  The same members
+next to a satisfying `aud` (the authorised party is somebody else): accepted as before. -/
+example :
+    authenticate cfg₀ rule₀ world₀ (.token (tokWith (("azp", .str "api") :: claimsNoAud))) now₀ = .rejected .audience ∧
+    authenticate cfg₀ rule₀ world₀ (.token (tokWith (("client_id", .str "api") :: claimsNoAud))) now₀
+      = .rejected .audience ∧
+    authenticate cfg₀ rule₀ world₀ (.token (tokWith (("audience", .arr [.str "api"]) :: claimsNoAud))) now₀
+      = .rejected .audience ∧
+    authenticate cfg₀ rule₀ world₀ (.token (tokWith (("Aud", .arr [.str "api"]) :: claimsNoAud))) now₀
+      = .rejected .audience ∧
+    authenticate cfg₀ rule₀ world₀ (.token (tokWith (("aud ", .str "api") :: claimsNoAud))) now₀
+      = .rejected .audience ∧
+    authenticate cfg₀ rule₀ world₀ (.token (tokWith (("ext", .obj [("aud", .str "api")]) :: claimsNoAud))) now₀
+      = .rejected .audience ∧
+    authenticate cfg₀ rule₀ world₀ (.token (tokWith (("aud", .arr []) :: ("azp", .str "api") :: claimsNoAud))) now₀
+      = .rejected .audience ∧
+    authenticate cfg₀ rule₀ world₀ (.token (tokWith (("aud", .str "") :: ("azp", .str "api") :: claimsNoAud))) now₀
+      = .rejected .audience ∧
+    authenticate cfg₀ rule₀ world₀
+      (.token (tokWith (("aud", .arr [.str "someone-else"]) :: ("azp", .str "api") :: claimsNoAud))) now₀
+      = .rejected .audience ∧
+    authenticate cfg₀ rule₀ world₀ (.token (tokWith (("azp", .str "someone-else") :: claims₀))) now₀ =
+      .accepted "4711" (.obj [("id", .num 4711 0), ("name", .str "Alice")]) ∧
+    authenticate cfg₀ rule₀ world₀ (.token (tokWith (("azp", .str "api") :: claimsNoAud ++ [("aud", .str "web")]))) now₀ =
+      .accepted "4711" (.obj [("id", .num 4711 0), ("name", .str "Alice")]) := by
+  refine ⟨by rfl, by rfl, by rfl, by rfl, by rfl, by rfl, by rfl, by rfl, by rfl, by rfl, by rfl⟩
+
+/-- the other clauses likewise: the trusted issuer under `issuer`, the required scope under `scopes`, a later
+instant under `expires_at` do not help a token whose `iss` / `scp` / `exp` do not satisfy the assertions -/
+example :
+    authenticate cfg₀ rule₀ world₀
+      (.token (tokWith (("issuer", .str "https://idp.example.com") :: claims₀.drop 1))) now₀ = .rejected .issuer ∧
+    authenticate cfg₀ rule₀ world₀
+      (.token (tokWith (("scopes", .arr [.str "users.*"]) :: claims₀.filter fun kv => kv.1 ≠ "scp"))) now₀
+      = .rejected .scopes ∧
+    authenticate cfg₀ rule₀ world₀
+      (.token (tokWith (("exp", .num 1699999000 0) :: ("expires_at", .num 1700000300 0) :: claims₀))) now₀
+      = .rejected .expired := by
+  refine ⟨by rfl, by rfl, by rfl⟩
 
 /-! ## Key selection -/
 
